@@ -40,6 +40,18 @@ def run_check(pid: str, tier: str, seed: int, program=None, quiet=False, write=T
         from . import selftest as st
 
         selftest = st.run_for(pid, seed)
+        try:
+            from . import automutate as am
+
+            props = {}
+            with open(os.path.join(report.VERIF, "properties.jsonl")) as fh:
+                for line in fh:
+                    d = json.loads(line)
+                    props[d["id"]] = d
+            files = [f for f in props[pid]["anchors"]["files"] if f.startswith("probdiffeq/")]
+            selftest["auto"] = am.run_for(pid, files, seed=seed, max_break=120, max_benign=120)
+        except Exception as e:  # the generic mutation statistics never change the verdict
+            selftest["auto"] = {"error": f"{type(e).__name__}: {e}"}
     code = chk.finish(selftest=selftest)
     if selftest and selftest.get("positive_control_failed"):
         print(f"ANALYSIS-ERROR property={pid} positive control of the self-test did not fire: {selftest['positive_control_failed']}")
